@@ -6,6 +6,8 @@ R14.2 reader gauntlet: every normal exit of the read-mode constructor has passed
       (which raises on an empty line and on an unparsable one); every record returned later has
       passed the fixed line-length test before field extraction
 R14.3 only the closing routine writes the box line, and it is the last thing written
+R14.4 write mode truncates at open time: builtin open(path, mode), or an opener that passes its flags on unchanged
+R14.5 opening/closing keeps no table between calls
 """
 from __future__ import annotations
 
